@@ -133,7 +133,7 @@ def d2_retire_only_if_held(ctx):
                       key="D2:ack-call-guarded:%s" % t["f"]["stable"])
     ctx.chk.floor("D2", "guarded effects in handle_srtla_ack_specific", n, 4)
     rvs = [pa.fa.val_local(0, (r, len(f.blocks[r]["stmts"]))) for r in ctx.cfg(f).returns]
-    ctx.chk.ob("D2", "handle_srtla_ack_specific reports whether the link held the packet", bool(rvs) and all(is_call(v, name_contains="is_some") and v[2][0] == rv for v in rvs),
+    ctx.chk.ob("D2", "handle_srtla_ack_specific reports whether the link held the packet", bool(rvs) and pa.equivalent(pa.ret_true(), FOUND),
                "", key="D2:ack-returns-found")
 
 
